@@ -354,7 +354,7 @@ def report_struct(probs, mir_text, script_lines, link, label):
 
 # ----------------------------------------------------------------------------- behavioural tie
 def parse_behav(out):
-    res = {"G": [], "R": [], "CT": [], "T": [], "CHANGED": [], "other": []}
+    res = {"G": [], "R": [], "CT": [], "T": [], "CHANGED": [], "MT": [], "other": []}
     for l in out.split("\n"):
         w = l.split(" ")
         if w[0] == "G":
@@ -367,6 +367,8 @@ def parse_behav(out):
             res["T"].append((w[1], w[2], w[3]))
         elif w[0] == "CHANGED":
             res["CHANGED"].append(l[:3000])
+        elif w[0] == "MT":
+            res["MT"].append((w[1], l.split(" ", 2)[2] if len(w) > 2 else ""))
         elif l:
             res["other"].append(l)
     return res
@@ -461,6 +463,12 @@ def behav_case(files, plan, canon, interp, exe=None):
     diff = [k for k in t_t if k in t_i and t_t[k] != t_i[k]]
     if diff:
         probs.append({"kind": "text-differs-from-twin", "funcs": [f for _, f in diff][:5]})
+    # a module built through the API while generation happened == the same module built without it
+    for other, who in ((rcn, "canonical"), (rin, "pure-interp")):
+        if rt["MT"] != other["MT"]:
+            probs.append({"kind": "module-under-construction-differs", "from": who,
+                          "test": rt["MT"][:2], "reference": other["MT"][:2]})
+            break
     return probs, info
 
 
@@ -800,6 +808,36 @@ for pi, prog in enumerate(progs):
                           "model_output": "gen_history / restore_identity: text, results and entry address independent of the history",
                           "impl_output": p2[0], "how_to_rerun": "./check C16 --replay <this file>"},
                          what=f"generated program {pi} -O{lv} {iface}/{late_iface}: {p2[0]['kind']} {str(p2[0])[:300]}")
+# ----------------------------------------------------------------------------- behavioural: generation while a module is under construction
+om = {"plans": 0, "kinds": {}, "canon_failed": 0}
+om_combos = [(k, lv, mode, pos) for k in c16_gen.BUILTIN_KINDS for lv in (0, 1, 2, 3)
+             for mode in ("lazy-call", "gen-under-interp", "gen-under-lazy") for pos in ("first", "between", "infunc")]
+if QUICK:       # every kind x mode x position once, levels rotating
+    om_combos = [c for i, c in enumerate(c for c in om_combos if c[1] == 0)]
+    om_combos = [(k, (i + rng.below(4)) % 4, mode, pos) for i, (k, _, mode, pos) in enumerate(om_combos)]
+for kind, lv, mode, pos in om_combos:
+    if behav_failed[0]:
+        break
+    text, _ = c16_gen.builtin_module(kind)
+    files = {"mu": path_for_text(text)}
+    plan, canon, interp = c16_gen.open_module_plans(kind, files["mu"], lv, mode, pos, interp_ok=not kf_open[KF1])
+    probs, info = behav_case(files, plan, canon, interp)
+    om["plans"] += 1
+    om["kinds"][kind] = om["kinds"].get(kind, 0) + 1
+    om["canon_failed"] += info["canon_failed"]
+    if info.get("canon_reason"):
+        om.setdefault("canon_fail_reasons", {}).setdefault(info["canon_reason"], 0)
+        om["canon_fail_reasons"][info["canon_reason"]] += 1
+    if probs:
+        behav_failed[0] = True
+        sub = lambda pl: [l.replace(files["mu"], "${mu}") for l in pl]
+        case = {"kind": "behav", "files": {"mu": text}, "plan": sub(plan), "canon": sub(canon), "interp": sub(interp)}
+        ck.violation({"stage": "tie", "theorem_or_correspondence": "behavioural: harness/c16_behav.c, generation while a module is under construction",
+                      "case": case, "problem": probs[0], "input": {"builtin": kind, "level": lv, "mode": mode, "position": pos},
+                      "model_output": "generation changes nothing but the generated function's code fields (and the helper items of its own module): the module being built is completed exactly as without the generation",
+                      "impl_output": probs[0], "how_to_rerun": "./check C16 --replay <this file>"},
+                     what=f"generation of a {kind} function ({mode}, -O{lv}) inside MIR_new_module..MIR_finish_module ({pos}): {probs[0]['kind']} {str(probs[0].get('detail', probs[0]))[:300]}")
+bstats["open_module"] = om
 for s in samples:
     ck.sample(s)
 dist["behav"] = bstats
@@ -828,7 +866,7 @@ if BEHAV_DBG and not behav_failed[0]:
     bstats["debug_build_plans"] = nd
 
 # ----------------------------------------------------------------------------- evidence
-ck.cov["evaluations"] = struct_stats["functions"] + bstats["corpus_plans"] + bstats["gen_plans"]
+ck.cov["evaluations"] = struct_stats["functions"] + bstats["corpus_plans"] + bstats["gen_plans"] + bstats["open_module"]["plans"]
 ck.cov["distinct_nontrivial"] = struct_stats["nontrivial"] + bstats["gen_plans"] + \
     (1 if bstats["corpus_regen"] else 0) * bstats["corpus_plans"]
 ck.cov["rule"] = ("structural: one evaluation = one function (mir-tests, `c2m -S` of sampled c-tests, generated modules) taken "
